@@ -232,9 +232,14 @@ def files_stdin_case(ex):
 def files_value_error(ex):
     env = ex.envs[0]
     if ex.outcome[1] == "ValueError" and ex.outcome[2] == "raise":
+        # the function's own usage errors, raised before any file is touched: an output file for several inputs, or an
+        # in-place run with stdin among the inputs
+        from vfcore.values import FAnd, FEx, FOr, FT
         out = env["output"]
-        return AND(len(L(ex, "REFORMAT_FILE")) == 0, z3.Not(T(env["inplace"])), z3.Not(out.is_none),
-                   z3.Not(T(ex.eq(out.val, "-"))), z3.Not(T(ex.eq(out.val, ""))))
+        files = ex.as_vlist(env["files"], "str")
+        out_file = AND(z3.Not(T(env["inplace"])), z3.Not(out.is_none), z3.Not(T(ex.eq(out.val, "-"))), z3.Not(T(ex.eq(out.val, ""))))
+        stdin_among = FEx("k", 0, files.length, lambda c: FT(T(ex.eq(ex.list_get(files, c), "-"))), "stdin among inputs")
+        return FAnd([FT(z3.BoolVal(len(L(ex, "REFORMAT_FILE")) == 0)), FOr([FT(out_file), FAnd([FT(T(env["inplace"])), stdin_among])])])
     return True
 
 
@@ -250,7 +255,9 @@ contract(Contract(
                             "single": "len(files) == 1 and files[0] == '-'"},
         "reformat_file#1": {"path": "arg_path == files[_i]",
                             "output": "implies(inplace, isnone(arg_output)) and implies(not inplace, arg_output == '-')",
-                            "no_out_file": Clause("inplace or isnone(old('output')) or val(old('output')) == '-' or val(old('output')) == ''", props=["C15", "C14"])},
+                            "no_out_file": Clause("inplace or isnone(old('output')) or val(old('output')) == '-' or val(old('output')) == ''", props=["C15", "C14"]),
+                            # C15 (usage errors write nothing): no file is rewritten by an in-place run that has stdin among its inputs
+                            "no_inplace_run_with_stdin": Clause("implies(inplace, all(files[k] != '-' for k in range(len(files))))", props=["C15", "C14"])},
     },
     loops={0: Loop(inv={}, body_ensures={"one_call": Clause(one_file_call_per_iteration, props=["C14", "C15"])},
                    decreases="len(files) - _i")},
@@ -266,5 +273,6 @@ contract(Contract(
         ("for file_path in files:", "for file_path in files[1:]:", ["C15", "C14"]),
         ('if not inplace and output and output != "-":', 'if not inplace and output and output == "-":', ["C15", "C14"]),
         ('            output = "-"\n', '            output = output\n', ["C15", "C14"]),
+        ('    if inplace and "-" in files:', '    if inplace and "-" in files[:1]:', ["C15", "C14"]),
     ],
 ))
